@@ -213,7 +213,7 @@ impl Check for C13 {
             *i = rng.u8();
         }
         SeqScn {
-            setup: Setup { image: Image { bytes, stack, limit, keep_limit: false }, regs, pokes: vec![], inputs, asm_mode: rng.chance(1, 40) },
+            setup: Setup { image: Image { bytes, stack, limit, keep_limit: false }, regs, pokes: vec![], inputs, asm_mode: rng.chance(1, 40) && max_edges <= 3_000 },
             events,
             max_edges,
         }
